@@ -113,7 +113,10 @@ def monStep (m : MSt) (bl : Block) : MSt × List String :=
     let f12 := (m6.fails.drop m.m6.fails.length).filterMap fun r =>
       if r == "C06:base-write-outside-file" || r == "C06:base-start-while-open" || r == "C06:base-stop-without-file"
       then some ("C12:storage-recorder-called-outside-start-stop-pairing-" ++ (r.drop 4).toString) else none
-    let fails := m6.fails.drop m.m6.fails.length ++ m11.fails.drop m.m11.fails.length ++ fb ++ f12
+    -- what is stored with a recording (C15: background and threshold at its trigger) is what the file is started with
+    let f15 := if (m11.fails.drop m.m11.fails.length).isEmpty then []
+      else ["C15:file-started-with-a-background-or-threshold-that-is-not-the-one-at-its-trigger"]
+    let fails := m6.fails.drop m.m6.fails.length ++ m11.fails.drop m.m11.fails.length ++ fb ++ f12 ++ f15
     let isWrite := match r with | .write .. => true | _ => false
     ({ m with steps := st :: m.steps, m6 := m6, m11 := m11, oracle := oracle, issued := m.issued + 1, fwd := m.fwd + fwdCount obs,
               events := m.events + countThrottled obs,
